@@ -301,6 +301,9 @@ def counting_parts(func, name):
     fors = [i for i, x in enumerate(ns) if x[0] == 'for']
     if not fors or any(x[0] == 'while' for x in ns[fors[-1] + 1:]):
         return None
+    from ..index import loop_leaves_early
+    if loop_leaves_early(ns[fors[-1]][1]):
+        return None
     return ns[fors[-1]][1], [(x[1], x[2]) for x in ns[fors[-1] + 1:] if x[0] == 'if']
 
 
